@@ -252,6 +252,13 @@ def run(chk):
                 for s in blk.get("s", []):
                     if s.get("k") == "if" and always_exits(s.get("then")) and s["l"] <= n["l"]:
                         c = expr_str(prog, f, s["cond"])
+                        # a named flag (`const bool modifies = oper == ++ || oper == --`) stands for its initialiser
+                        plocs = ref_inits(f)
+                        for x in walk(s["cond"]):
+                            if x.get("k") == "ref" and x.get("rk") == "local":
+                                v = plocs.get(x.get("vid"))
+                                if v is not None and v.get("init") is not None and not any(y.get("k") == "assign" and strip_casts(y["lhs"]).get("vid") == x.get("vid") for y in walk(f["body"])):
+                                    c += " <- " + expr_str(prog, f, v["init"])
                         if "is_const" in c and "pre_increment" in c and "pre_decrement" in c and "&&" in c:
                             ok = True
             r4.ob("Prefix::eval_internal/do_oper after the (++|--) && is_const() test", ok, "%s:%d" % (f["file"], n["l"]), f["q"],
@@ -309,7 +316,7 @@ def run(chk):
                 ok = True
                 r8.note("allow-listed: %s -- %s" % (ident, ALLOW8["Boxed_Value{true}@For_Guards"]))
         r8.ob(ident, ok, e["where"], e["fn"], "a non-const Boxed_Value is stored in a Constant node: `var r := <this constant>; r = other` rewrites the syntax tree")
-    r8.require(12, "Constant node constructions")
+    r8.require(8, "Constant node constructions")
 
     # supporting obligation: the arithmetic kernel, which R7.8 accepts as an origin (the optimizer stores its results in Constant nodes),
     # hands out a fresh result only as const_var(..) - never mutable, never marked as a temporary that a declaration may adopt
@@ -492,6 +499,18 @@ def consumer_ok(prog, f, flow, locs, n):
                 if v.get("init") is not None and any(x is n for x in walk(v["init"])):
                     var = v
             break
+    if var is None:
+        # `T *p = nullptr; if (..) { p = static_cast<T *>(bv.get_ptr()); }`: assigned, not initialised - the same checked local
+        for a in [p] + list(flow.ancestors(p)):
+            if a.get("k") == "assign" and a.get("op") == "=" and any(x is n for x in walk(a["rhs"])):
+                l = strip_casts(a["lhs"])
+                if l.get("k") == "ref" and l.get("rk") == "local":
+                    for d in walk(f["body"]):
+                        if d.get("k") == "decl":
+                            for v in d["vars"]:
+                                if v["vid"] == l.get("vid"):
+                                    var = v
+                break
     if var is None:
         return False, "result neither verified nor stored in a checked local"
     vid = var["vid"]
